@@ -269,6 +269,44 @@ def histStep (toks : List String) : String :=
     | [] => "-"
     | outs => " ".intercalate (outs.map showOutcome)
 
+open Dos.PtProg Dos.Gen.Ed25519Pt in
+/-- point receivers with history: the TRANSLATED methods run with the receiver register holding the old point -/
+def drpStep (arg : Nat → String) : String :=
+  match ptUn (hex! (arg 2)) with
+  | none => "receiver does not decode"
+  | some d =>
+    let r : Val := .ext d false
+    let un (i : Nat) : Option Ge.Ext := ptUn (hex! (arg i))
+    let show1 (st : St) : String := toHex (ptMar (ptOut st 0))
+    match arg 1 with
+    | "null" => show1 (point_Null.run [0] [r])
+    | "base" => show1 (point_Base.run [0] [r])
+    | "unmarshal" =>
+      let st := point_UnmarshalBinary.run [0, 1] [r, .bytes (hex! (arg 3))]
+      match st.res with
+      | .ok => show1 st
+      | _ => "err"
+    | "set" =>
+      match un 3 with
+      | some p => show1 (point_Set.run [0, 1] [r, .ext p false])
+      | none => "operand does not decode"
+    | "neg" =>
+      match un 3 with
+      | some p => show1 (point_Neg.run [0, 1] [r, .ext p false])
+      | none => "operand does not decode"
+    | "add" | "sub" =>
+      match un 3, un 4 with
+      | some p, some q =>
+        if arg 1 == "add" then show1 (point_Add.run [0, 1, 2] [r, .ext p false, .ext q false])
+        else show1 (point_Sub.run [0, 1, 2] [r, .ext p false, .ext q false])
+      | _, _ => "operand does not decode"
+    | "mul" =>
+      match un 4 with
+      | some p => show1 (point_Mul.run [0, 1, 2] [r, .bytes (hex! (arg 3)), .ext p false])
+      | none => "operand does not decode"
+    | "mulbase" => show1 (point_Mul.run [0, 1, 2] [r, .bytes (hex! (arg 3)), .nil])
+    | _ => "bad drp op"
+
 def step (line : String) : String :=
   let w := words line
   let arg (i : Nat) : String := w.getD i ""
@@ -405,6 +443,30 @@ def step (line : String) : String :=
       | none => "err n=32"
     | _ => "bad apx op"
   | "hist" => histStep (w.drop 2)
+  | "vfy" =>
+    -- a literal (key, message, signature): the bundled Verify and the RFC 8032 verifier, both cofactorless
+    s!"bv={bundledVerdict (hx 2) (msgOf (arg 3)) (hx 4)} sv={stdVerdict (hx 2) (msgOf (arg 3)) (hx 4)}"
+  | "drt" =>
+    -- a receiver with history: the value of an operation does not depend on what the receiver held (arg 2)
+    match arg 1 with
+    | "setbytes" => toHex (scSetBytes (hx 3))
+    | "unmarshal" =>
+      match scUnmarshal (hx 3) with
+      | .ok v => toHex (scMarshal v)
+      | .error _ => "err size " ++ toHex (scMarshal (hx 2))
+    | "setint64" => toHex (Ed25519.Api.setInt64 ((arg 3).toInt?.getD 0))
+    | "zero" => toHex Ed25519.Api.zero
+    | "one" => toHex Ed25519.Api.one
+    | "pick" => toHex ((Ed25519.Api.pick [hx 3, List.replicate 31 0 ++ [1]]).getD [])
+    | "set" => toHex (scMarshal (hx 3))
+    | "add" => toHex (scMarshal (Ed25519.Api.add (hx 3) (hx 4)))
+    | "sub" => toHex (scMarshal (Ed25519.Api.sub (hx 3) (hx 4)))
+    | "mul" => toHex (scMarshal (Ed25519.Api.mul (hx 3) (hx 4)))
+    | "div" => toHex (scMarshal (Ed25519.Api.div (hx 3) (hx 4)))
+    | "neg" => toHex (scMarshal (Ed25519.Api.neg (hx 3)))
+    | "inv" => toHex (scMarshal (Ed25519.Api.inv (hx 3)))
+    | _ => "bad drt op"
+  | "drp" => drpStep arg
   | "fe" => feStep arg
   | "ge" => geStep arg
   | "pt2" => pt2Step arg
